@@ -32,6 +32,7 @@ class Ctx(object):
         self.nontrivial = set()
         self.evaluations = 0
         self.notes = []
+        self.tie_breaks = []
         self.quick = tier == "quick"
 
     # correspondence case: the model expression must evaluate to the expected tokens
@@ -58,6 +59,11 @@ class Ctx(object):
         if len(self.samples) < limit:
             self.samples.append(obj)
 
+    def tie_break(self, what):
+        """a validation of the harness's own reference (spec transcription, generator) failed"""
+        if len(self.tie_breaks) < 50:
+            self.tie_breaks.append(what)
+
     def note(self, s):
         self.notes.append(s)
 
@@ -83,7 +89,7 @@ def main():
         "status": status, "error": err, "python": "%d.%d" % ctx.ver,
         "cases": ctx.cases, "violations": ctx.violations, "counters": ctx.counters,
         "samples": ctx.samples, "evaluations": ctx.evaluations,
-        "distinct_nontrivial": len(ctx.nontrivial), "notes": ctx.notes,
+        "distinct_nontrivial": len(ctx.nontrivial), "notes": ctx.notes, "tie_breaks": ctx.tie_breaks,
         "wall_s": round(time.time() - t0, 2),
     }
     with open(outfile, "w") as f:
